@@ -60,6 +60,18 @@ impl CDb {
         c::ndb_result_free(res);
         serde_json::from_str(&text).map_err(|e| CErr { code: -2, category: 0, message: format!("result JSON does not parse: {e}: {text}") })
     }
+    /// Raw byte string as the query text (bytes after the first NUL are not seen by the C API).
+    pub fn query_bytes(&self, bytes: &[u8]) -> Result<(), CErr> {
+        let cut: Vec<u8> = bytes.iter().copied().take_while(|b| *b != 0).collect();
+        let q = CString::new(cut).unwrap();
+        let mut res: *mut c::ndb_result_t = std::ptr::null_mut();
+        let rc = c::ndb_query(self.ptr, q.as_ptr(), std::ptr::null(), &mut res);
+        if rc != c::NDB_OK {
+            return Err(last_error(rc));
+        }
+        c::ndb_result_free(res);
+        Ok(())
+    }
     pub fn execute_write(&self, cypher: &str, params_json: Option<&str>) -> Result<u32, CErr> {
         let q = CString::new(cypher).map_err(|_| CErr { code: -1, category: 0, message: "NUL in query".into() })?;
         let pj = params_json.map(|p| CString::new(p).unwrap());
